@@ -357,6 +357,10 @@ Definition has_seq_zo_fo_absorption (g : graph) : bool :=
 Definition has_lag_time (g : graph) : bool :=
   match dosing0 g with Some d => n_lag d | None => false end.
 
+(* no pharmpy function by that name: dosing_compartments[0].bioavailability != 1 *)
+Definition has_bioavailability (g : graph) : bool :=
+  match dosing0 g with Some d => n_bio d | None => false end.
+
 Definition elim_edge (g : graph) : option edge :=
   match central g with Some c => get_edge g (n_name c) NOutput | None => None end.
 Definition el_nonlin (g : graph) : bool := match elim_edge g with Some e => e_nonlin e | None => false end.
@@ -380,7 +384,8 @@ Record detected := mkDet {
   dt_transits : nat;         (* get_number_of_transit_compartments *)
   dt_depot : option name;    (* find_depot *)
   dt_periph : nat;           (* get_number_of_peripheral_compartments *)
-  dt_lag : bool              (* has_lag_time *)
+  dt_lag : bool;             (* has_lag_time *)
+  dt_bio : bool              (* dosing_compartments[0].bioavailability != 1 *)
 }.
 
 Definition detect_abs (g : graph) : option absk :=
@@ -397,7 +402,7 @@ Definition detect (g : graph) : detected :=
   mkDet (detect_abs g) (detect_elim g)
         (match find_transits g with Some l => length l | None => 0 end)
         (match find_depot g with Ok (Some nd) => Some (n_name nd) | _ => None end)
-        (length (find_peripherals g)) (has_lag_time g).
+        (length (find_peripherals g)) (has_lag_time g) (has_bioavailability g).
 
 (* ---- helpers of the setters ------------------------------------------------------------------ *)
 Definition fresh (g : graph) : nat := S (fold_left Nat.max (map e_rid (g_edges g)) 0).
@@ -452,6 +457,15 @@ Definition remove_lag_time (g : graph) : res graph :=
 Definition add_lag_time (g : graph) : res graph :=
   do d0 <- opt_res (dosing0 g) CValue;
   Ok (fst (set_lag_time g d0 true)).
+
+(* add_bioavailability(model): only when the bioavailability is still a number *)
+Definition add_bioavailability (g : graph) : res graph :=
+  do d0 <- opt_res (dosing0 g) CValue;
+  if n_bio d0 then Ok g else Ok (fst (set_bioavailability g d0 true)).
+(* remove_bioavailability(model) *)
+Definition remove_bioavailability (g : graph) : res graph :=
+  do d0 <- opt_res (dosing0 g) CValue;
+  Ok (fst (set_bioavailability g d0 false)).
 
 Definition set_instantaneous_absorption (cs : graph) : res graph :=
   do _d <- opt_res (dosing0 cs) CValue;
@@ -721,7 +735,7 @@ Definition set_transit_compartments (cs0 : graph) (n : nat) (keep_depot : bool) 
 Inductive req :=
 | AbsInst | AbsFO | AbsZO | AbsSeq
 | ElFO | ElZO | ElMM | ElMix
-| LagOn | LagOff
+| LagOn | LagOff | BioOn | BioOff
 | PerAdd | PerRem | PerSet (n : nat)
 | Transits (n : nat) (keep_depot : bool).
 
@@ -737,6 +751,8 @@ Definition setter_graph (f : req) (g : graph) : res graph :=
   | ElMix => set_mixed_mm_fo_elimination g
   | LagOn => add_lag_time g
   | LagOff => remove_lag_time g
+  | BioOn => add_bioavailability g
+  | BioOff => remove_bioavailability g
   | PerAdd => add_peripheral_compartment g
   | PerRem => remove_peripheral_compartment g
   | PerSet n => set_peripheral_compartments g n
@@ -753,7 +769,8 @@ Record sk := mkSk {
   s_mat : bool;        (* environment: a MAT assignment exists *)
   s_popmdt : bool;     (* environment: a POP_MDT parameter exists (once the lag time is removed) *)
   s_krates : bool;     (* environment: the peripheral rates are bare K symbols *)
-  s_elq : bool         (* environment: the elimination rate is a quotient *)
+  s_elq : bool;        (* environment: the elimination rate is a quotient *)
+  s_bio : bool         (* bioavailability F (not 1) on the dosing compartment *)
 }.
 Definition s_depot (s : sk) : bool := match s_abs s with FO | SEQ => true | _ => false end.
 Definition s_zo (s : sk) : bool := match s_abs s with ZO | SEQ => true | _ => false end.
@@ -765,7 +782,7 @@ Definition first_name (s : sk) : name :=
   match s_transits s with 0 => if s_depot s then NDepot else NCentral | _ => NTransit 1 end.
 Definition the_dose (s : sk) : dose := if s_zo s then mkDose true true 1 else bolus 1.
 Definition mk_node (s : sk) (x : name) : node :=
-  if name_eqb x (first_name s) then mkNode x [the_dose s] (s_lag s) false else plain x.
+  if name_eqb x (first_name s) then mkNode x [the_dose s] (s_lag s) (s_bio s) else plain x.
 
 Definition build_nodes (s : sk) : list node :=
   map (fun k => mk_node s (NTransit k)) (seq 1 (s_transits s))
@@ -804,13 +821,14 @@ Definition canon_transits (s : sk) : nat :=
 Definition canon_depot (s : sk) : option name :=
   if s_depot s then Some NDepot else if Nat.eqb (s_transits s) 1 then Some (NTransit 1) else None.
 Definition canon (s : sk) : detected :=
-  mkDet (Some (canon_abs s)) (Some (s_elim s)) (canon_transits s) (canon_depot s) (s_periph s) (s_lag s).
+  mkDet (Some (canon_abs s)) (Some (s_elim s)) (canon_transits s) (canon_depot s) (s_periph s) (s_lag s) (s_bio s).
 
-Definition with_abs (s : sk) (a : absk) : sk := mkSk a (s_transits s) (s_periph s) (s_elim s) (s_lag s) (s_mat s) (s_popmdt s) (s_krates s) (s_elq s).
-Definition with_tr (s : sk) (n : nat) : sk := mkSk (s_abs s) n (s_periph s) (s_elim s) (s_lag s) (s_mat s) (s_popmdt s) (s_krates s) (s_elq s).
-Definition with_per (s : sk) (n : nat) : sk := mkSk (s_abs s) (s_transits s) n (s_elim s) (s_lag s) (s_mat s) (s_popmdt s) (s_krates s) (s_elq s).
-Definition with_el (s : sk) (e : elk) : sk := mkSk (s_abs s) (s_transits s) (s_periph s) e (s_lag s) (s_mat s) (s_popmdt s) (s_krates s) (s_elq s).
-Definition with_lagb (s : sk) (b : bool) : sk := mkSk (s_abs s) (s_transits s) (s_periph s) (s_elim s) b (s_mat s) (s_popmdt s) (s_krates s) (s_elq s).
+Definition with_abs (s : sk) (a : absk) : sk := mkSk a (s_transits s) (s_periph s) (s_elim s) (s_lag s) (s_mat s) (s_popmdt s) (s_krates s) (s_elq s) (s_bio s).
+Definition with_tr (s : sk) (n : nat) : sk := mkSk (s_abs s) n (s_periph s) (s_elim s) (s_lag s) (s_mat s) (s_popmdt s) (s_krates s) (s_elq s) (s_bio s).
+Definition with_per (s : sk) (n : nat) : sk := mkSk (s_abs s) (s_transits s) n (s_elim s) (s_lag s) (s_mat s) (s_popmdt s) (s_krates s) (s_elq s) (s_bio s).
+Definition with_el (s : sk) (e : elk) : sk := mkSk (s_abs s) (s_transits s) (s_periph s) e (s_lag s) (s_mat s) (s_popmdt s) (s_krates s) (s_elq s) (s_bio s).
+Definition with_lagb (s : sk) (b : bool) : sk := mkSk (s_abs s) (s_transits s) (s_periph s) (s_elim s) b (s_mat s) (s_popmdt s) (s_krates s) (s_elq s) (s_bio s).
+Definition with_biob (s : sk) (b : bool) : sk := mkSk (s_abs s) (s_transits s) (s_periph s) (s_elim s) (s_lag s) (s_mat s) (s_popmdt s) (s_krates s) (s_elq s) b.
 
 (* ================================================================== comparison up to node order *)
 Definition dose_key_eqb := dose_eqb.
@@ -826,9 +844,9 @@ Definition onat_eqb (a b : option nat) : bool :=
   match a, b with Some x, Some y => Nat.eqb x y | None, None => true | _, _ => false end.
 (* the two systems identify the same pairs of flows as having equal rates *)
 Definition same_partition (l1 l2 : list edge) : bool :=
-  forallb (fun a => forallb (fun b =>
-    Bool.eqb (Nat.eqb (e_rid a) (e_rid b))
-             (onat_eqb (rid_of l2 (e_src a) (e_dst a)) (rid_of l2 (e_src b) (e_dst b)))) l1) l1.
+  let pairs := map (fun a => (e_rid a, rid_of l2 (e_src a) (e_dst a))) l1 in
+  forallb (fun p => forallb (fun q =>
+    Bool.eqb (Nat.eqb (fst p) (fst q)) (onat_eqb (snd p) (snd q))) pairs) pairs.
 
 (* without rate identity *)
 Definition geqb_shape (g1 g2 : graph) : bool :=
@@ -860,7 +878,7 @@ Definition guess (g : graph) : sk :=
        (length (filter (fun nd => is_transit (n_name nd)) (g_nodes g)))
        (length (filter (fun nd => is_periph (n_name nd)) (g_nodes g)))
        (match detect_elim g with Some e => e | None => EFO end)
-       (has_lag_time g) (g_mat g) (g_popmdt g) (g_krates g) (g_elq g).
+       (has_lag_time g) (g_mat g) (g_popmdt g) (g_krates g) (g_elq g) (has_bioavailability g).
 Definition recognize (g : graph) : option sk := if geqb g (build (guess g)) then Some (guess g) else None.
 
 (* ================================================================== the setters on skeletons *)
@@ -878,11 +896,12 @@ Definition step_transits (s : sk) (n : nat) (keep : bool) : sres :=
       let s1 := if s_depot s
                 then mkSk (drop_depot_abs (s_abs s)) tr (s_periph s) (s_elim s)
                           (if Nat.eqb tr 0 then false else s_lag s) (s_mat s) (s_popmdt s) (s_krates s) (s_elq s)
-                else with_lagb (with_tr s 0) false in
+                          (if Nat.eqb tr 0 then false else s_bio s)     (* lag and F go with the removed depot *)
+                else with_biob (with_lagb (with_tr s 0) false) false in
       if Nat.eqb dt0 n then SOk s1
       else if Nat.eqb n 1 && absk_eqb (s_abs s1) INST && Nat.eqb (s_transits s1) 0 then SRefuse
       else if Nat.eqb dt0 0 then SOk (with_tr s1 n)
-      else if n <? dt0 then SOk (if Nat.eqb n 0 then with_lagb (with_tr s1 0) false else with_tr s1 n)
+      else if n <? dt0 then SOk (if Nat.eqb n 0 then with_biob (with_lagb (with_tr s1 0) false) false else with_tr s1 n)
       else SOk (with_tr s1 n)
   else
     if Nat.eqb dt0 n then SOk (with_lagb s false)
@@ -890,7 +909,7 @@ Definition step_transits (s : sk) (n : nat) (keep : bool) : sres :=
     else if Nat.eqb dt0 0 then
       if Nat.eqb tr 1 then SCrash CDupName
       else if s_lag s then SAnom else SOk (with_tr s n)
-    else if n <? dt0 then SOk (if Nat.eqb n 0 then with_lagb (with_tr s 0) false else with_tr s n)
+    else if n <? dt0 then SOk (if Nat.eqb n 0 then with_biob (with_lagb (with_tr s 0) false) false else with_tr s n)
     else SOk (with_tr s n).
 
 Definition step (f : req) (s : sk) : sres :=
@@ -898,9 +917,9 @@ Definition step (f : req) (s : sk) : sres :=
   match f with
   | AbsInst =>
       match s_abs s, tr with
-      | INST, 1 => SOk (with_lagb (with_tr s 0) false)
+      | INST, 1 => SOk (with_biob (with_lagb (with_tr s 0) false) false)
       | INST, _ => SOk s
-      | FO, 0 => SOk (with_lagb (with_abs s INST) false)
+      | FO, 0 => SOk (with_biob (with_lagb (with_abs s INST) false) false)
       | FO, _ => SCrash CIndex
       | ZO, _ => SOk (with_abs s INST)
       | SEQ, 0 => SOk (with_abs s FO)
@@ -935,7 +954,7 @@ Definition step (f : req) (s : sk) : sres :=
       | INST, _ => SCrash CAttr
       | FO, 0 => SOk (with_abs s SEQ)
       | FO, _ => SCrash CListRemove
-      | ZO, 0 => SOk (with_lagb (with_abs s SEQ) false)
+      | ZO, 0 => SOk (with_biob (with_lagb (with_abs s SEQ) false) false)
       | ZO, _ => SOk s
       | SEQ, _ => SOk s
       end
@@ -945,6 +964,8 @@ Definition step (f : req) (s : sk) : sres :=
   | ElMix => SOk (with_el s EMIX)
   | LagOn => SOk (with_lagb s true)
   | LagOff => SOk (with_lagb s false)
+  | BioOn => SOk (with_biob s true)
+  | BioOff => SOk (with_biob s false)
   | PerAdd => SOk (with_per s (S (s_periph s)))
   | PerRem => if s_krates s && (Nat.eqb (s_periph s) 2 || (Nat.eqb (s_periph s) 1 && s_elq s)) then SCrash CValue
               else if s_periph s <=? 9 then SOk (with_per s (pred (s_periph s))) else SAnom
@@ -1023,11 +1044,17 @@ Definition g_rem_periph_rates (f : req) (s : sk) : bool :=       (* _find_noncov
         | PerSet n => s_krates s && (((n <=? 1) && (2 <=? s_periph s)) || (Nat.eqb n 0 && (1 <=? s_periph s) && s_elq s))
         | _ => false end).
 
+Definition g_keeps_bio (f : req) (s : sk) : bool :=              (* F dropped with the removed dosing compartment *)
+  negb (s_bio s && match f with
+                   | BioOff => false
+                   | _ => match step f s with SOk s' => negb (s_bio s') | _ => false end
+                   end).
+
 Definition guard (f : req) (s : sk) : bool :=
   g_inst_depot_dosed f s && g_inst_not_stale f s && g_seq_has_depot f s && g_seq_depot_dosed f s
   && g_zo_depot_dosed f s && g_fo_no_chain f s && g_fo_seq_chain f s && g_fo_keeps_lag f s
   && g_no_param_clash f s && g_transit_no_lag f s && g_no_single_transit f s && g_periph_le9 f s
-  && g_rem_periph_rates f s.
+  && g_rem_periph_rates f s && g_keeps_bio f s.
 
 (* "the corresponding detector reports exactly that feature", read through canon *)
 Definition request_detected (f : req) (s s' : sk) : bool :=
@@ -1039,6 +1066,7 @@ Definition request_detected (f : req) (s s' : sk) : bool :=
   | ElFO => elk_eqb (s_elim s') EFO | ElZO => elk_eqb (s_elim s') EZO
   | ElMM => elk_eqb (s_elim s') EMM | ElMix => elk_eqb (s_elim s') EMIX
   | LagOn => s_lag s' | LagOff => negb (s_lag s')
+  | BioOn => s_bio s' | BioOff => negb (s_bio s')
   | PerAdd => Nat.eqb (s_periph s') (S (s_periph s))
   | PerRem => Nat.eqb (s_periph s') (pred (s_periph s))
   | PerSet n => Nat.eqb (s_periph s') n
@@ -1054,14 +1082,16 @@ Definition others_unchanged (f : req) (s s' : sk) : bool :=
   let same_per := Nat.eqb (s_periph s') (s_periph s) in
   let same_el := elk_eqb (s_elim s') (s_elim s) in
   let same_lag := Bool.eqb (s_lag s') (s_lag s) in
+  let same_bio := Bool.eqb (s_bio s') (s_bio s) in
   match f with
-  | AbsInst | AbsSeq => same_tr && same_per && same_el && (same_lag || negb (s_lag s'))
-  | AbsFO | AbsZO => same_tr && same_per && same_el && same_lag
-  | ElFO | ElZO | ElMM | ElMix => same_abs && same_tr && same_per && same_lag
-  | LagOn | LagOff => same_abs && same_tr && same_per && same_el
-  | PerAdd | PerRem | PerSet _ => same_abs && same_tr && same_el && same_lag
+  | AbsInst | AbsSeq => same_tr && same_per && same_el && (same_lag || negb (s_lag s')) && same_bio
+  | AbsFO | AbsZO => same_tr && same_per && same_el && same_lag && same_bio
+  | ElFO | ElZO | ElMM | ElMix => same_abs && same_tr && same_per && same_lag && same_bio
+  | LagOn | LagOff => same_abs && same_tr && same_per && same_el && same_bio
+  | BioOn | BioOff => same_abs && same_tr && same_per && same_el && same_lag
+  | PerAdd | PerRem | PerSet _ => same_abs && same_tr && same_el && same_lag && same_bio
   | Transits _ keep =>
-      same_per && same_el && negb (s_lag s')
+      same_per && same_el && negb (s_lag s') && same_bio
       && (same_abs || (negb keep && absk_eqb (s_abs s') (drop_depot_abs (s_abs s))))
   end.
 
@@ -1079,6 +1109,7 @@ Definition req_eqb (a b : req) : bool :=
   match a, b with
   | AbsInst, AbsInst | AbsFO, AbsFO | AbsZO, AbsZO | AbsSeq, AbsSeq
   | ElFO, ElFO | ElZO, ElZO | ElMM, ElMM | ElMix, ElMix | LagOn, LagOn | LagOff, LagOff
+  | BioOn, BioOn | BioOff, BioOff
   | PerAdd, PerAdd | PerRem, PerRem => true
   | PerSet n, PerSet m => Nat.eqb n m
   | Transits n k, Transits m j => Nat.eqb n m && Bool.eqb k j
@@ -1089,6 +1120,7 @@ Definition req_eqb (a b : req) : bool :=
 Definition undo_of (f : req) (s : sk) : option req :=
   match f with
   | LagOn => if s_lag s then None else Some LagOff
+  | BioOn => if s_bio s then None else Some BioOff
   | PerAdd => Some PerRem
   | PerSet n => if s_periph s <? n then Some (PerSet (s_periph s)) else None
   | ElZO | ElMM | ElMix => if elk_eqb (s_elim s) EFO then Some ElFO else None
